@@ -103,7 +103,11 @@ func c06gen(rng *rand.Rand, hp *Pool, cat []catEntry) c06op {
 			// one source (with or without spare room behind its elements) unpacked / extended several times
 			fmt.Sprintf("{|s| a := [*s, 1]; b := [*s, 2]; c := [*s, 3]; [a[-1] == 1, b[-1] == 2, c[-1] == 3, a.len == s.len + 1]}(%s%s)", n("arr"), []string{"", " + [0]", "[0:1]", "[:-1]", ".A", " * 2"}[rng.Intn(6)]),
 			fmt.Sprintf("{|s| a := s + [1]; b := s + [2]; c := [*s, *s]; [a[-1] == 1, b[-1] == 2, c.len == s.len * 2]}(%s%s)", n("arr"), []string{"", " + [0]", "[0:1]", "[:-1]", ".A"}[rng.Intn(5)]),
-		}[rng.Intn(8)]}
+			// look-ups (by scalar and non-scalar keys, present and absent) leave a map / obj as it printed before
+			fmt.Sprintf("{|m| before := [m.S, m.keys.S, m.values.S]; m[[3]]; m[[2]]; m[{a: 1}]; m[1]; m['k]; m[%s]; [m.S, m.keys.S, m.values.S] == before}(%s)", n("arr", "obj", "int", "str"), n("map", "obj")),
+			// one kwargs object handed to every call of a chain: what a callee saw of it stays what it saw
+			"[{m: m{|x: 1| [\\_, \\_.S]}}, {m: m{|y: 2| [\\_, \\_.S]}}, {m: m{|z: 3, k: 9| [\\_, \\_.S]}}]@m(k: 0)@{|q| q[0].S == q[1]}",
+		}[rng.Intn(10)]}
 	case 19, 20:
 		// a stored, caught error raised again (and caught again): the stored value keeps its own report
 		e := n("errw", "either")
